@@ -74,6 +74,10 @@ func TestPlan(t *testing.T) {
 		// the binary leg of the formatter properties: `spok --fmt` on generated files
 		p.Rule = "binary leg: generated spokfiles (random layouts, comments in every position, side-effect-free loading) formatted in place by `spok --fmt` in the sandbox; the file afterwards is parsed in-process and judged by the same projection as the in-process leg (C11: a second --fmt leaves it byte-identical). Non-trivial: the file changed; distinct by source"
 		binShards("^TestFmtBinary$", 8, 40, 16, 600)
+	case "C03":
+		// the binary leg of C03: the selected task comes from the command line, from the default task or from `--clean`
+		p.Rule = "binary leg: graphs on 1-4 tasks (cyclic and acyclic, optional undefined dependency) where the first task is selected by name, implicitly as the default task (bare `spok`) or as the user-defined clean task (`spok --clean`), with and without --force/--json/--quiet; the side-effect log must show the selected task's closure exactly once, dependencies first, or an error and no command at all"
+		binShards("^TestGraphBinary$", 8, 50, 16, 600)
 	case "C05":
 		// output globs through the CLI: --clean removes exactly the files the pattern denotes
 		p.Rule = "binary leg: project trees x spokfiles whose outputs are glob patterns only (incl. patterns whose matches are string-prefix siblings such as bin/app and bin/app.sha256); `spok --clean` must remove exactly the files the reference matcher says each pattern denotes"
@@ -235,6 +239,12 @@ func TestReplay(t *testing.T) {
 
 func replayOther(t *testing.T, v ev.Violation, raw []byte) *rp.Fail {
 	switch v.Kind {
+	case "graphbin":
+		var c GraphBinCase
+		if err := json.Unmarshal(raw, &c); err != nil {
+			t.Fatal(err)
+		}
+		return execGraphBin(nil, newBox(t), c)
 	case "force":
 		var c ForceCase
 		if err := json.Unmarshal(raw, &c); err != nil {
@@ -388,6 +398,18 @@ func execFindBinary(s *ev.Shard, b *sandbox.Box, c FindCase) *rp.Fail {
 		}
 	}
 	return nil
+}
+
+func TestGraphBinary(t *testing.T) {
+	s := ev.Open(t, "C03")
+	b := newBox(t)
+	rp.Check(t, s, "graphbin", genGraphBin, func(c GraphBinCase) *rp.Fail {
+		s.Class("space_binary_graph")
+		if s.WantSample() {
+			s.Sample(map[string]any{"spokfile": c.source(), "via": c.Via, "flags": c.Flags})
+		}
+		return execGraphBin(s, b, c)
+	})
 }
 
 func TestCleanGlobs(t *testing.T) {
